@@ -243,6 +243,31 @@ inline std::vector<SEntry> gen_table(size_t eff_block, int maxn, bool allow_huge
   return out;
 }
 
+// A table of thousands of one-entry blocks written through an 8-thread pool: many blocks are compressed at the same time, so
+// anything the compression / block-building code shares between threads (a static work area, a statistic updated by the
+// workers) shows up as a wrong block or a wrong count every now and then.
+inline void gen_many_blocks_pooled(WConfig &cfg, std::vector<SEntry> &entries) {
+  cfg = WConfig();
+  cfg.comp = pick(0, 5);
+  cfg.block_size = 1024;
+  cfg.pool = 8;
+  // either thousands of 1 KiB blocks, or hundreds of 20 KiB ones (compressing a block then takes longer than building the
+  // next one, so several really are in flight together even in a sanitizer build)
+  bool big = chance(50);
+  int nblk = big ? pick(300, 600) : pick(1500, 4000);
+  entries.clear();
+  for (int i = 0; i < nblk; i++) {
+    SEntry e;
+    char k[16];
+    snprintf(k, sizeof k, "b%06d", i);
+    e.k = BStr::of(bytes(k));
+    e.v.glen = big ? 20000 : 1100;
+    e.v.gseed = (uint32_t)i;
+    e.v.gkind = (uint8_t)(i % 3 == 0 ? 0 : 2);  // incompressible and "abcabc..." values alternate
+    entries.push_back(e);
+  }
+}
+
 inline KVs expand_entries(const std::vector<SEntry> &es) {
   KVs out;
   out.reserve(es.size());
